@@ -14,8 +14,9 @@ RULE = ('grammar scripts (comments in any inter-token position, all '
         '{1,2,3,4,8} and wrap_after in {0,1,5,20,80}, and the empty set; '
         'oracle: the real lexer\'s non-whitespace token sequence of '
         'format() output equals that of the input (values exact; comments '
-        'modulo per-line trailing blanks / line-end spelling) and '
-        'len(split(out)) == len(split(in)). distinct_nontrivial = distinct '
+        'modulo per-line trailing blanks / line-end spelling) and input and '
+        'output split into the same number of statements (pieces holding '
+        'only comments are not counted). distinct_nontrivial = distinct '
         '(option set, statement kinds, feature set) with >= 8 significant '
         'tokens')
 ASSUMPTIONS = [
@@ -54,7 +55,8 @@ def check(ctx, text, opts, meta, trigger=None):
                       finding=fid)
     else:
         rec.monitor('statement_count')
-        n1, n2 = len(sqlparse.split(text)), len(sqlparse.split(out))
+        n1, n2 = fmtutil.count_statements(text), \
+            fmtutil.count_statements(out)
         if n1 != n2:
             rec.violation('count', dict(case, output=out),
                           'input splits into %d statements, output into %d'
@@ -112,7 +114,8 @@ def _passes(text, opts):
     except Exception:
         return False
     return (oracles.sig(text) == oracles.sig(out)
-            and len(sqlparse.split(text)) == len(sqlparse.split(out)))
+            and fmtutil.count_statements(text)
+            == fmtutil.count_statements(out))
 
 
 D25_ITEMS = ['select 1 # \n from t', 'select a, # \n b from t',
